@@ -20,6 +20,8 @@ import McpModel.Negotiate.Props
 -- (Paginate/Negotiate drivers are roots of their own executables; two `main`s cannot be imported together)
 import McpModel.TypedTool.Props
 import McpModel.Preflight.Props
+import McpModel.Preflight.Sound
+import McpModel.Preflight.Bridge
 import McpModel.Notify.Props
 import McpModel.ClientStream.Props
 import McpModel.ClientStream.AsBuilt
